@@ -20,15 +20,19 @@ for EVERY state and EVERY operation:
   `…client…`) — not the session's own configured window, not Set Peer Bandwidth, not a command; no
   application call changes the window or the counter (`C17_server_calls_leave_counter`, `…client…`); the
   message loop never changes the counter, whatever it ends in (`C17_server_loop_leaves_counter`, `…client…`).
-NOT a theorem: that the messages handled in the drain never produce a second Acknowledgement packet (they
-do not: no handler sends one; read off the model, exercised by the `ack` family's oracle which counts the
-Acknowledgement messages in every call's output).
+* "in exactly those input calls" (`C17_server_acks_in_call`, `C17_client_acks_in_call`, for every call of
+  every history: `…_reachable_acks_in_call`; Lemmas/SrvNoAck, CliNoAck): the packets a successful call
+  returns are exactly a history of the session's serializer which — when the step says none is due —
+  contains NO Acknowledgement message, and — when it says `n` is due — is the Acknowledgement carrying `n`
+  followed by messages none of which is an Acknowledgement: no handler run by the message loop sends one.
 -/
 import Rml.Model.ServerSession
 import Rml.Model.ClientSession
 import Rml.Lemmas.AckHop
 import Rml.Lemmas.SessSafe
 import Rml.Lemmas.AckFrame
+import Rml.Lemmas.SrvNoAck
+import Rml.Lemmas.CliNoAck
 namespace Rml.C17
 open Rml Rml.Bytes Rml.Chunk Rml.Amf0 Rml.Msgs Rml.Sess Rml.SerHist Rml.Emit Rml.Link Rml.Exchange Rml.WfSteps Rml.Workflow
 
@@ -381,5 +385,122 @@ theorem C17_client_window_is_last_announced {ser ser' : Ser.State} {c : Cli.Stat
 example : AckFrame.lastWin none [{ ts := 0, typ := 5, msid := 0, data := be32 100 },
       { ts := 0, typ := 6, msid := 0, data := be32 7 ++ [2] }, { ts := 0, typ := 5, msid := 0, data := be32 2500 }] = some 2500 := by
   decide
+
+/-- **the drain sends no Acknowledgement** (server): whatever the buffered and new bytes are, if the
+    message loop returns results then the packets among them are exactly a history of the session's
+    serializer in which NO message has type id 3 -/
+theorem C17_server_drain_sends_no_ack (s s' : Srv.State) (hi : SrvEmit.Inv s) (now : Nat) (bytes : Bytes)
+    (rs : List Srv.Res) (h : SrvPart.drain s now bytes = (s', .ok rs)) :
+    ∃ xs, Emits s.ser s'.ser xs ∧ xs.map (·.1) = SrvEmit.outs rs ∧ ∀ x ∈ xs, x.2.typ ≠ 3 := by
+  unfold SrvPart.drain at h
+  have hi0 : SrvEmit.Inv (BufS.withBuf s (s.des.buf ++ bytes)) := ⟨hi.1, hi.2⟩
+  have := (SrvNoAck.msgLoop_step _ _ s' (BufS.withBuf s (s.des.buf ++ bytes)) now [] (.ok rs) hi0 h).2 rs rfl
+    (SrvNoAck.em_same rfl rfl)
+  exact this
+
+
+theorem C17_client_drain_sends_no_ack (s s' : Cli.State) (hi : CliEmit.Inv s) (now : Nat) (bytes : Bytes)
+    (rs : List Cli.Res) (h : CliPart.drain s now bytes = (s', .ok rs)) :
+    ∃ xs, Emits s.ser s'.ser xs ∧ xs.map (·.1) = CliEmit.outs rs ∧ ∀ x ∈ xs, x.2.typ ≠ 3 := by
+  unfold CliPart.drain at h
+  have hi0 : CliEmit.Inv (BufC.withBuf s (s.des.buf ++ bytes)) := ⟨hi.1, hi.2⟩
+  have := (CliNoAck.msgLoop_step _ _ s' (BufC.withBuf s (s.des.buf ++ bytes)) now [] (.ok rs) hi0 h).2 rs rfl
+    (CliNoAck.em_same rfl rfl)
+  exact this
+
+/-- **"in exactly those input calls", at session level (server).**  In every state that keeps the session
+    invariant and has outbound chunk size ≥ 1 (every reachable state), for every `handle_input` call that
+    returns results: the packets among the results are exactly a history `xs` of the session's serializer,
+    and
+    * if the acknowledgement step says none is due, NO message in `xs` is an Acknowledgement (type 3);
+    * if it says `n` is due, `xs` is the Acknowledgement message carrying `n` followed by messages none of
+      which is an Acknowledgement — one acknowledgement, first, with the step's count. -/
+theorem C17_server_acks_in_call (s s' : Srv.State) (hi : SrvEmit.Inv s) (hp : 1 ≤ s.ser.maxCs) (now : Nat)
+    (bytes : Bytes) (rs : List Srv.Res) (h : Srv.handleInput s now bytes = (s', .ok rs)) :
+    ∃ xs, Emits s.ser s'.ser xs ∧ xs.map (·.1) = SrvEmit.outs rs ∧
+      match (ackStep s.window s.since bytes.length).2 with
+      | none => ∀ x ∈ xs, x.2.typ ≠ 3
+      | some n => ∃ p rest, xs = (p, AckHop.ackMsg n now) :: rest ∧ ∀ x ∈ rest, x.2.typ ≠ 3 := by
+  obtain ⟨_, hnone, hsome⟩ := C17_server_every_call s hp now bytes
+  cases hk : (ackStep s.window s.since bytes.length).2 with
+  | none =>
+    rw [hnone hk] at h
+    have := C17_server_drain_sends_no_ack ({ s with since := (ackStep s.window s.since bytes.length).1 }) s' ⟨hi.1, hi.2⟩ now bytes rs h
+    exact this
+  | some n =>
+    obtain ⟨s1, p, hs, hem, hin⟩ := hsome n hk
+    rw [hin] at h
+    obtain ⟨_, _, _, _, hs1⟩ := srv_send_exact hs trivial (epoch_lt now) (by decide)
+    have hi1 : SrvEmit.Inv ({ s1 with since := (ackStep s.window s.since bytes.length).1 } : Srv.State) := by
+      rw [hs1]; exact ⟨hi.1, hi.2⟩
+    cases hd : SrvPart.drain { s1 with since := (ackStep s.window s.since bytes.length).1 } now bytes with
+    | mk s2 r2 =>
+      rw [hd] at h
+      unfold SrvPart.mapOk at h
+      cases r2 with
+      | error e => simp at h
+      | ok r =>
+        simp only [Prod.mk.injEq, Except.ok.injEq] at h
+        obtain ⟨h1, h2⟩ := h
+        subst h1; subst h2
+        obtain ⟨xs, ex, mx, gx⟩ := C17_server_drain_sends_no_ack _ s2 hi1 now bytes r hd
+        refine ⟨(p, AckHop.ackMsg n now) :: xs, hem.trans ex, ?_, p, xs, rfl, gx⟩
+        simp only [List.map_cons, mx]
+        rfl
+
+theorem C17_client_acks_in_call (s s' : Cli.State) (hi : CliEmit.Inv s) (hp : 1 ≤ s.ser.maxCs) (now : Nat)
+    (bytes : Bytes) (rs : List Cli.Res) (h : Cli.handleInput s now bytes = (s', .ok rs)) :
+    ∃ xs, Emits s.ser s'.ser xs ∧ xs.map (·.1) = CliEmit.outs rs ∧
+      match (ackStep s.window s.since bytes.length).2 with
+      | none => ∀ x ∈ xs, x.2.typ ≠ 3
+      | some n => ∃ p rest, xs = (p, AckHop.ackMsg n now) :: rest ∧ ∀ x ∈ rest, x.2.typ ≠ 3 := by
+  obtain ⟨_, hnone, hsome⟩ := C17_client_every_call s hp now bytes
+  cases hk : (ackStep s.window s.since bytes.length).2 with
+  | none =>
+    rw [hnone hk] at h
+    have := C17_client_drain_sends_no_ack ({ s with since := (ackStep s.window s.since bytes.length).1 }) s' ⟨hi.1, hi.2⟩ now bytes rs h
+    exact this
+  | some n =>
+    obtain ⟨s1, p, hs, hem, hin⟩ := hsome n hk
+    rw [hin] at h
+    obtain ⟨_, _, _, _, hs1⟩ := cli_send_exact hs trivial (epoch_lt now) (by decide)
+    have hi1 : CliEmit.Inv ({ s1 with since := (ackStep s.window s.since bytes.length).1 } : Cli.State) := by
+      rw [hs1]; exact ⟨hi.1, hi.2⟩
+    cases hd : CliPart.drain { s1 with since := (ackStep s.window s.since bytes.length).1 } now bytes with
+    | mk s2 r2 =>
+      rw [hd] at h
+      unfold CliPart.mapOk at h
+      cases r2 with
+      | error e => simp at h
+      | ok r =>
+        simp only [Prod.mk.injEq, Except.ok.injEq] at h
+        obtain ⟨h1, h2⟩ := h
+        subst h1; subst h2
+        obtain ⟨xs, ex, mx, gx⟩ := C17_client_drain_sends_no_ack _ s2 hi1 now bytes r hd
+        refine ⟨(p, AckHop.ackMsg n now) :: xs, hem.trans ex, ?_, p, xs, rfl, gx⟩
+        simp only [List.map_cons, mx]
+        rfl
+
+/-- … and that covers every call of every history of a server session -/
+theorem C17_server_reachable_acks_in_call (c : Srv.Config) (now : Nat) (s0 : Srv.State) (rs0 : List Srv.Res)
+    (ops : List SrvEmit.Op) (hnew : Srv.new c now = .ok (s0, rs0)) (hw : ∀ op ∈ ops, op.WF)
+    (hk : SrvEmit.ErrKeepsSer s0 ops) (now' : Nat) (bytes : Bytes) (s' : Srv.State) (rs : List Srv.Res)
+    (h : Srv.handleInput (SrvEmit.run s0 ops).1 now' bytes = (s', .ok rs)) :
+    ∃ xs, Emits (SrvEmit.run s0 ops).1.ser s'.ser xs ∧ xs.map (·.1) = SrvEmit.outs rs ∧
+      match (ackStep (SrvEmit.run s0 ops).1.window (SrvEmit.run s0 ops).1.since bytes.length).2 with
+      | none => ∀ x ∈ xs, x.2.typ ≠ 3
+      | some n => ∃ p rest, xs = (p, AckHop.ackMsg n now') :: rest ∧ ∀ x ∈ rest, x.2.typ ≠ 3 := by
+  obtain ⟨hi, hp⟩ := Safe.S.reach c now s0 rs0 ops hnew hw hk
+  exact C17_server_acks_in_call _ s' hi hp now' bytes rs h
+
+theorem C17_client_reachable_acks_in_call (cfg : Cli.Config) (ops : List CliEmit.Op) (hw : ∀ op ∈ ops, op.WF)
+    (hk : CliEmit.ErrKeepsSer { cfg := cfg } ops) (now' : Nat) (bytes : Bytes) (s' : Cli.State) (rs : List Cli.Res)
+    (h : Cli.handleInput (CliEmit.run { cfg := cfg } ops).1 now' bytes = (s', .ok rs)) :
+    ∃ xs, Emits (CliEmit.run { cfg := cfg } ops).1.ser s'.ser xs ∧ xs.map (·.1) = CliEmit.outs rs ∧
+      match (ackStep (CliEmit.run { cfg := cfg } ops).1.window (CliEmit.run { cfg := cfg } ops).1.since bytes.length).2 with
+      | none => ∀ x ∈ xs, x.2.typ ≠ 3
+      | some n => ∃ p rest, xs = (p, AckHop.ackMsg n now') :: rest ∧ ∀ x ∈ rest, x.2.typ ≠ 3 := by
+  obtain ⟨hi, hp⟩ := Safe.C.reach cfg ops hw hk
+  exact C17_client_acks_in_call _ s' hi hp now' bytes rs h
 
 end Rml.C17
